@@ -76,6 +76,15 @@ func init() {
 	register(&Property{ID: "C20", Level: "exploration", World: c20World, Replay: c20Replay,
 		Worlds: map[string]int{"quick": 1500, "thorough": 8000}, Batch: map[string]int{"quick": 1, "thorough": 4},
 		Rule: "three kinds of cases: (1) histories of 1-120 Enqueue/Dequeue/Peek/Size ops on container.Queue[int] with unique values against a slice, biased to fill, shift and grow the ring buffer; (2) histories of Push/PushAll/Pop/Peek/Size/Clear on container.Stack[int]; (3) token streams of the real lexer over a generated, deeply indented script and its stream faults (every truncation offset, every byte deletion, sampled mutations): DEDENT never exceeds INDENT, both are equal at EOF, one EOF ends the stream, no nil token; non-trivial = queue history with >=1 growth / stack depth >=4 / token stream with >=2 INDENTs; distinct by hash of the history or bytes"})
+	register(&Property{ID: "C09", Level: "exploration", World: c09World, Replay: func(p *Plan) *Violation { return c09Exec(p, nil) },
+		Worlds: map[string]int{"quick": 1200, "thorough": 6000}, Batch: map[string]int{"quick": 1, "thorough": 4},
+		Rule: "worlds = generated program using dice/random/random_range in lines, conditions, sets and option conditions x seed string over [0-9a-z]{1,20} x host schedule of 3-24 steps; each world is executed 6+ times in-process (plain, repeated, after 1-3 unrelated seeded runners, after 1-50 draws from the global math/rand and math/rand/v2 sources, under a clock moved by up to 10^6 s inside a bubble, with a neighbour runner stepped during its callbacks) and, in the procs mode, in fresh child processes with GOMAXPROCS 1/4/16 and GOGC 100/25/off; canonical traces (elements, error texts, variables after every op) must be byte-identical and every rendered random value must lie in its range; non-trivial = >=2 random values rendered; distinct by hash of the trace"})
+	register(&Property{ID: "C18", Level: "exploration", World: c18World, Replay: func(p *Plan) *Violation { return c18Exec(p, nil) },
+		Worlds: map[string]int{"quick": 900, "thorough": 4500}, Batch: map[string]int{"quick": 1, "thorough": 4},
+		Rule: "deterministic part: worlds = 2-4 runners over 1-2 generated programs (random built-ins, markup, commands, variables, counters), each with its own dynamic op list (steps, host writes, releases, snapshot/restore); one total order interleaves their creations and steps, and every n-th host callback (storer read, host function, command handler entry) of the running runner executes a burst of 1-3 steps of another runner in the middle of the call; each runner's full trace (elements, variables, side effects, snapshots) must equal its solo trace; non-trivial = >=1 mid-call burst; distinct by hash of the plan. Stress part (race mode, -race binary, real scheduler, fresh processes with cold parser caches): 4-16 goroutines create and drive the runners concurrently from the first instruction; no race report, every trace equals the sequential one"})
+	register(&Property{ID: "C14", Level: "exploration", World: c14World, Replay: c14Replay,
+		Worlds: map[string]int{"quick": 4000, "thorough": 20000}, Batch: map[string]int{"quick": 1, "thorough": 4},
+		Rule: "two kinds of cases, both real-vs-real: (a) a history of 2-12 ParseMarkup calls on ONE LineParser value over lines assembled from text chunks (ASCII, multi-byte), escapes, open/close/close-all/self-closing markers with properties, replacement markers, character prefixes and failing lines (unterminated marker, bad property, unexpected close, EOF inside a string) - every result is compared with a fresh parser's; (b) a dialogue whose option bodies hold 0-4 such lines each, followed by shared lines: the shared lines' text and attributes must be identical whichever option was taken; non-trivial = >=2 attributes involved; distinct by hash of the lines / script"})
 }
 
 // capTB lets rapid.Check report into the harness instead of failing the test.
@@ -86,14 +95,17 @@ type capTB struct {
 
 type capStop struct{}
 
-func (c *capTB) Helper()                           {}
-func (c *capTB) Name() string                      { return "sim" }
-func (c *capTB) Logf(format string, args ...any)   {}
-func (c *capTB) Log(args ...any)                   {}
-func (c *capTB) Skipf(format string, args ...any)  { panic(capStop{}) }
-func (c *capTB) Skip(args ...any)                  { panic(capStop{}) }
-func (c *capTB) SkipNow()                          { panic(capStop{}) }
-func (c *capTB) Errorf(format string, args ...any) { c.failed = true; c.msgs = append(c.msgs, fmt.Sprintf(format, args...)) }
+func (c *capTB) Helper()                          {}
+func (c *capTB) Name() string                     { return "sim" }
+func (c *capTB) Logf(format string, args ...any)  {}
+func (c *capTB) Log(args ...any)                  {}
+func (c *capTB) Skipf(format string, args ...any) { panic(capStop{}) }
+func (c *capTB) Skip(args ...any)                 { panic(capStop{}) }
+func (c *capTB) SkipNow()                         { panic(capStop{}) }
+func (c *capTB) Errorf(format string, args ...any) {
+	c.failed = true
+	c.msgs = append(c.msgs, fmt.Sprintf(format, args...))
+}
 func (c *capTB) Error(args ...any)                 { c.failed = true; c.msgs = append(c.msgs, fmt.Sprint(args...)) }
 func (c *capTB) Fatalf(format string, args ...any) { c.Errorf(format, args...); panic(capStop{}) }
 func (c *capTB) Fatal(args ...any)                 { c.Error(args...); panic(capStop{}) }
@@ -133,9 +145,69 @@ var (
 func beginActivity(name string) { actName.Store(name); actStart.Store(time.Now().UnixNano()) }
 func endActivity()              { actStart.Store(0) }
 
+func flagSet(name, value string) { flag.Set(name, value) }
+
+var seenClauses = map[string]bool{}
+
+// runRapid runs one rapid batch (seed and number of checks are taken from the rapid flags).
+func runRapid(env *Env, label string, world func(tp *Tape) (*Plan, *Violation), addViolation func(*Plan, *Violation)) (harnessErr string) {
+	var lastPlan *Plan
+	var lastViol *Violation
+	target := ""
+	tb := &capTB{}
+	func() {
+		defer func() {
+			if p := recover(); p != nil {
+				if _, ok := p.(capStop); !ok {
+					panic(p)
+				}
+			}
+		}()
+		rapid.Check(tb, func(rt *rapid.T) {
+			tp := &Tape{t: rt}
+			env.St.inc("worlds", 1)
+			beginActivity(label + " world")
+			plan, v := world(tp)
+			endActivity()
+			if worldLog != nil && plan != nil {
+				fmt.Fprintf(worldLog, "%016x %v\n", hashJSON(plan), v == nil)
+			}
+			if v == nil {
+				return
+			}
+			if target != "" && v.Clause != target {
+				return // while shrinking, only the same clause counts
+			}
+			if seenClauses[v.Clause] {
+				return // already reported from an earlier batch
+			}
+			target = v.Clause
+			lastPlan, lastViol = plan, v
+			rt.Fatalf("violation %s", v.Clause)
+		})
+	}()
+	if lastViol != nil {
+		seenClauses[lastViol.Clause] = true
+		addViolation(lastPlan, lastViol)
+	} else if tb.failed {
+		return strings.Join(tb.msgs, "; ")
+	}
+	return ""
+}
+
+var worldLog *os.File
+
 func TestSim(t *testing.T) {
 	gT = t
 	debug.SetGCPercent(400)
+	if *fMode == "child" {
+		runChild()
+		return
+	}
+	if *fMode == "racechild" {
+		runRaceChild()
+		return
+	}
 	if *fReplay != "" {
 		runReplay(t)
 		return
@@ -156,25 +228,38 @@ func TestSim(t *testing.T) {
 	env := &Env{Tier: *fTier, VerifSeed: *fSeed, Shard: *fShard, NShards: *fNShards, St: newStats(), Thorough: *fTier == "thorough"}
 	res := &shardResult{Property: prop.ID, Tier: *fTier, Seed: *fSeed, Shard: *fShard, GoMaxProcs: runtime.GOMAXPROCS(0)}
 
-	// watchdog: a single real call that takes more than 20 s of wall time is reported as harness trouble
-	go func() {
-		for {
-			time.Sleep(time.Second)
-			if s := actStart.Load(); s != 0 && time.Now().UnixNano()-s > int64(20*time.Second) {
-				name, _ := actName.Load().(string)
-				fmt.Printf("HARNESS-ERROR watchdog: %s exceeded 20s\n", name)
-				os.Exit(2)
+	finish := func() {
+		res.Worlds = env.St.Counters["worlds"]
+		res.Counters = env.St.Counters
+		res.Samples = env.St.Samples
+		res.SimNs = env.St.SimNs
+		res.SetSizes = map[string]int{}
+		res.WallS = time.Since(start).Seconds()
+		if *fOut != "" {
+			b, _ := json.MarshalIndent(res, "", " ")
+			os.WriteFile(*fOut, b, 0o644)
+			// distinct sets go to a side file so the driver can take the union over shards
+			f, err := os.Create(*fOut + ".sets")
+			if err == nil {
+				names := make([]string, 0, len(env.St.Sets))
+				for k := range env.St.Sets {
+					names = append(names, k)
+				}
+				sort.Strings(names)
+				for _, name := range names {
+					for h := range env.St.Sets[name] {
+						fmt.Fprintf(f, "%s %016x\n", name, h)
+					}
+				}
+				f.Close()
 			}
+		} else {
+			b, _ := json.MarshalIndent(res, "", " ")
+			fmt.Println(string(b))
 		}
-	}()
-
-	var logf *os.File
-	if *fLog != "" {
-		logf, _ = os.Create(*fLog)
-		defer logf.Close()
 	}
-
-	addViolation := func(plan *Plan, v *Violation, rapidSeed uint64) {
+	rapidSeed := uint64(0)
+	addViolation := func(plan *Plan, v *Violation) {
 		plan.Clause = v.Clause
 		plan.Violation = v
 		plan.VerifSeed, plan.Tier, plan.Shard, plan.RapidSeed = env.VerifSeed, env.Tier, env.Shard, rapidSeed
@@ -182,10 +267,57 @@ func TestSim(t *testing.T) {
 		res.Violations = append(res.Violations, violationOut{Clause: v.Clause, Replay: path, Note: v.Note})
 	}
 
+	// watchdog: a single world that takes more than 30 s of wall time. While a stream is being
+	// loaded (C05) that is the property's "terminates" clause; anywhere else it is harness trouble.
+	go func() {
+		for {
+			time.Sleep(time.Second)
+			if s := actStart.Load(); s != 0 && time.Now().UnixNano()-s > int64(30*time.Second) {
+				name, _ := actName.Load().(string)
+				if sc := currentCase; sc != nil && prop.ID == "C05" {
+					scc := *sc
+					plan := &Plan{Harness: 1, Property: "C05", World: World{Readers: sc.Readers, Host: HostSpec{Seed: sc.Seed}}, Extra: map[string]any{"case": scc, "index": 0}}
+					addViolation(plan, &Violation{Clause: "C05.hang", OpIndex: -1, Note: "loading did not return within 30 s"})
+					finish()
+					os.Exit(0)
+				}
+				fmt.Printf("HARNESS-ERROR watchdog: %s exceeded 30s\n", name)
+				os.Exit(2)
+			}
+		}
+	}()
+
+	if *fLog != "" {
+		worldLog, _ = os.Create(*fLog)
+		defer worldLog.Close()
+	}
+	flag.Set("rapid.nofailfile", "true")
+	flag.Set("rapid.shrinktime", "20s")
+
+	switch *fMode {
+	case "procs":
+		worlds := 12
+		if env.Thorough {
+			worlds = 60
+		}
+		if *fWorlds > 0 {
+			worlds = *fWorlds
+		}
+		rapidSeed = mix64(mix64(env.VerifSeed, hashStr("C09procs")), uint64(env.Shard)) & ((1 << 62) - 1)
+		flag.Set("rapid.seed", fmt.Sprint(rapidSeed|1))
+		c09Procs(env, worlds, addViolation)
+		finish()
+		return
+	case "race":
+		raceParent(env, prop.ID, addViolation)
+		finish()
+		return
+	}
+
 	if prop.Fixed != nil {
 		for _, plan := range prop.Fixed(env) {
 			if plan != nil && plan.Violation != nil {
-				addViolation(plan, plan.Violation, 0)
+				addViolation(plan, plan.Violation)
 			}
 		}
 	}
@@ -199,94 +331,47 @@ func TestSim(t *testing.T) {
 		if batches == 0 {
 			batches = 1
 		}
-		flag.Set("rapid.nofailfile", "true")
-		flag.Set("rapid.shrinktime", "20s")
 		flag.Set("rapid.checks", fmt.Sprint(worlds))
-		seenClauses := map[string]bool{}
 		for b := 0; b < batches && len(res.Violations) < 3; b++ {
 			rs := mix64(mix64(env.VerifSeed, hashStr(prop.ID)), uint64(env.Shard)*1000+uint64(b))
+			rs &= (1 << 62) - 1
 			if rs == 0 {
 				rs = 1
 			}
-			rs &= (1 << 62) - 1
+			rapidSeed = rs
 			res.RapidSeeds = append(res.RapidSeeds, rs)
 			flag.Set("rapid.seed", fmt.Sprint(rs))
-			var lastPlan *Plan
-			var lastViol *Violation
-			target := ""
-			tb := &capTB{}
-			func() {
-				defer func() {
-					if p := recover(); p != nil {
-						if _, ok := p.(capStop); !ok {
-							panic(p)
-						}
-					}
-				}()
-				rapid.Check(tb, func(rt *rapid.T) {
-					tp := &Tape{t: rt}
-					env.St.inc("worlds", 1)
-					beginActivity(prop.ID + " world")
-					plan, v := prop.World(tp, env)
-					endActivity()
-					if logf != nil && plan != nil {
-						fmt.Fprintf(logf, "%016x %v\n", hashJSON(plan), v == nil)
-					}
-					if v == nil {
-						return
-					}
-					if target != "" && v.Clause != target {
-						return // while shrinking, only the same clause counts
-					}
-					if seenClauses[v.Clause] {
-						return // already reported from an earlier batch
-					}
-					target = v.Clause
-					lastPlan, lastViol = plan, v
-					rt.Fatalf("violation %s", v.Clause)
-				})
-			}()
-			if lastViol != nil {
-				seenClauses[lastViol.Clause] = true
-				addViolation(lastPlan, lastViol, rs)
-			} else if tb.failed {
-				res.HarnessErr = strings.Join(tb.msgs, "; ")
+			if herr := runRapid(env, prop.ID, func(tp *Tape) (*Plan, *Violation) { return prop.World(tp, env) }, addViolation); herr != "" {
+				res.HarnessErr = herr
 			}
 		}
 	}
-
-	res.Worlds = env.St.Counters["worlds"]
-	res.Counters = env.St.Counters
-	res.Samples = env.St.Samples
-	res.SimNs = env.St.SimNs
-	res.SetSizes = map[string]int{}
-	res.WallS = time.Since(start).Seconds()
-	if *fOut != "" {
-		b, _ := json.MarshalIndent(res, "", " ")
-		os.WriteFile(*fOut, b, 0o644)
-		// distinct sets go to a side file so the driver can take the union over shards
-		f, err := os.Create(*fOut + ".sets")
-		if err == nil {
-			names := make([]string, 0, len(env.St.Sets))
-			for k := range env.St.Sets {
-				names = append(names, k)
-			}
-			sort.Strings(names)
-			for _, name := range names {
-				for h := range env.St.Sets[name] {
-					fmt.Fprintf(f, "%s %016x\n", name, h)
-				}
-			}
-			f.Close()
-		}
-	} else {
-		b, _ := json.MarshalIndent(res, "", " ")
-		fmt.Println(string(b))
-	}
+	finish()
 	if res.HarnessErr != "" {
 		fmt.Printf("HARNESS-ERROR %s\n", res.HarnessErr)
 		os.Exit(2)
 	}
+}
+
+func loadPlanFile(path string) *Plan {
+	b, err := os.ReadFile(path)
+	if err != nil {
+		fmt.Printf("HARNESS-ERROR cannot read plan file: %v\n", err)
+		os.Exit(2)
+	}
+	var plan Plan
+	if err := json.Unmarshal(b, &plan); err != nil {
+		fmt.Printf("HARNESS-ERROR cannot parse plan file: %v\n", err)
+		os.Exit(2)
+	}
+	return &plan
+}
+
+// runChild: a fresh process computes the trace of a C09 plan and prints its hash.
+func runChild() {
+	plan := loadPlanFile(*fReplay)
+	tr, _ := c09Trace(plan, false, nil, nil)
+	fmt.Printf("TRACEHASH %016x\n", hashStr(tr))
 }
 
 func runReplay(t *testing.T) {
